@@ -623,10 +623,12 @@ func genC13Case(rt *rapid.T, thorough bool) *c13Case {
 	// changes; make sure the classification by construction still holds
 	for i, w := range c.Wire {
 		if c.limitAt(i) > 0 && i != c.Oversize && len(w) > c.limitAt(i) {
-			panic(fmt.Sprintf("harness: message %d built with %d bytes for limit %d", i, len(w), c.limitAt(i)))
+			// e.g. a blob cannot be shorter than 3 bytes: with a limit of 2 the drawn
+			// size cannot be built - not a case, draw another one
+			rt.Skip(fmt.Sprintf("harness: message %d needs %d bytes, limit %d", i, len(w), c.limitAt(i)))
 		}
 		if i == c.Oversize && len(w) <= c.limitAt(i) {
-			panic(fmt.Sprintf("harness: oversize message %d built with %d bytes for limit %d", i, len(w), c.limitAt(i)))
+			rt.Skip(fmt.Sprintf("harness: oversize message %d built with %d bytes for limit %d", i, len(w), c.limitAt(i)))
 		}
 	}
 	if c.Family == "blockfetch" {
